@@ -2,10 +2,7 @@
  * Every assumed clause is a postcondition proved for the real function in the strpriv unit (C06/C07 leaf jobs);
  * every asserted clause is that function's precondition.  Arguments and results are recorded in LF / TRC_* so that
  * callers' postconditions can state WHAT was searched or compared (forwarding correctness).                       */
-struct leaf_call { int calls; int kind; const char *h; size_t n; const char *nd; size_t k; char ch; const char *ret; } LF;
-const char *FS_PROBE; int FS_HIT; size_t FS_WIT;     /* first-occurrence witness for the candidate at FS_PROBE */
-enum { LF_find_cs_needle = 1, LF_find_ci_needle, LF_find_ci_char };
-#define LEAF_EQ(ci, a, b) ((ci) ? FOLD(a) == FOLD(b) : (a) == (b))
+/* ghost declarations (LF, FS_PROBE, FS_HIT, FS_WIT, LEAF_EQ) are in spec/strpriv_ghost.h so that loop contracts can name them */
 static const char *leaf_find_needle(int ci, const char *h, size_t n, const char *nd, size_t k)
 {
     __CPROVER_assert(k >= 1, "find(needle).precondition: the needle is not empty");
